@@ -3313,6 +3313,12 @@ static Node *primary(Token **rest, Token *tok) {
       return new_num(0, start);
     if (is_flonum(ty))
       return new_num(1, start);
+
+    // A struct or union of at most 16 bytes is passed in registers:
+    // 3 plus 1 if the first eightbyte is of class SSE, plus 2 if the
+    // second one is.
+    if ((ty->kind == TY_STRUCT || ty->kind == TY_UNION) && 0 < ty->size && ty->size <= 16)
+      return new_num(3 + has_flonum(ty, 0, 8, 0) + 2 * has_flonum(ty, 8, 16, 0), start);
     return new_num(2, start);
   }
 
